@@ -32,6 +32,7 @@ def required_cells(tier):
     req["history:forms-after-derived-planes-moved"] = 50
     req["line:support-equals-direction"] = 300
     req["plane:three-points-two-of-which-hash-alike"] = 300
+    req["line:Fraction-coordinates"] = 50
     req["plane:normal-components-up-to-5"] = 250 if tier == "quick" else 900
     return req
 
@@ -286,8 +287,15 @@ def judge(case):
     if case.get("special"):
         mu.cell("line:" + case["special"])
     objs = []
+    ntl = float
+    if case["ls"] % 4 == 1:
+        # exact rationals with a halved / quartered direction (the same line)
+        from fractions import Fraction as _Fr
+        ntl = _Fr
+        ld = ("L", p, K.mul(d, (_Fr(1, 2), _Fr(1, 4), _Fr(3, 2))[(case["ls"] // 4) % 3]))
+        mu.cell("line:Fraction-coordinates")
     for f in range(3):
-        o, exc, _ = M.call(lambda: lift(ld, None, form=f), pure=False)
+        o, exc, _ = M.call(lambda: lift(ld, None, ntl, form=f), pure=False)
         if exc is not None:
             mu.fail("line:form%d-raises-%s" % (f, M.classify_exc(exc)), "Line form %d raised %r" % (f, exc))
             return mu.result()
@@ -295,6 +303,19 @@ def judge(case):
         if not same:
             mu.fail("line:form%d-different-line" % f, "Line form %d denotes another line: %s" % (f, why))
         objs.append(o)
+    # points p + t d are on the line (every form), displaced ones are not
+    for o in objs:
+        for t in (0, 1, -2, F(1, 2), 3):
+            q = K.add(ld[1], K.mul(ld[2], t))
+            Q = G.Point(*[(c if ntl is not float else float(c)) for c in q])
+            res, exc, _ = M.call(lambda a, b: a in b, Q, o)
+            if exc is not None or res is not True:
+                mu.fail("line:misses-its-own-point", "point support + %s * direction is reported %r for the line" % (t, exc or res))
+                break
+        off = K.add(K.add(ld[1], ld[2]), gen._reduce(K.cross(ld[2], (F(1), F(2), F(-3))) if K.cross(ld[2], (F(1), F(2), F(-3))) != (0, 0, 0) else (F(0), F(0), F(1))))
+        res, exc, _ = M.call(lambda a, b: a in b, G.Point(*[float(c) for c in off]), o)
+        if exc is None and res is True:
+            mu.fail("line:contains-a-displaced-point", "a point off the line is reported on it")
     for i in range(3):
         for j in range(3):
             r, exc, imp = M.call(lambda a, b: a == b, objs[i], objs[j])
